@@ -115,7 +115,11 @@ func c07Case(b *Batch, idx int) {
 	}
 	// ctx option for writes; returns ctx and resulting class
 	writeOpt := func() (context.Context, string, string) {
-		switch rng.Intn(6) {
+		switch rng.Intn(8) {
+		case 6:
+			return cache.WithTTL(bg, -48*time.Hour, false), "-48h", "expired" // longer than the default DeleteExpiredAfter
+		case 7:
+			return cache.WithTTL(bg, -100*365*24*time.Hour, false), "-100y", "expired" // negative timestamp
 		case 0:
 			return cache.WithTTL(bg, time.Hour, rng.Intn(2) == 0), "+1h", "fresh"
 		case 1:
